@@ -144,6 +144,30 @@ def r1_transducer_template(ctx):
         if name in ("take", "take-while"):
             ok = any(L.head(f) in ("ensure-reduced", "reduced") for b in sbody for f in L.walk(b))
             ctx.ob("C07.R1", f"{CORE}::{name}::signals early termination", CORE, step[0].line, ok, "" if ok else f"{name} never returns a reduced value: it cannot stop an infinite input")
+        if name == "take":
+            # a *counting* terminator knows with its last element that it is done: the reduced value must
+            # wrap the result of that element's rf call.  Reducing the untouched accumulator on the *next*
+            # input means every context pulls one element more than (take n coll) -- which may block or throw.
+            sparams = [p.val for p in step[0].items if isinstance(p, L.Sym)]
+            late = []
+            for b in sbody:
+                for f in L.walk(b):
+                    if L.head(f) in ("ensure-reduced", "reduced") and len(f.items) == 2:
+                        arg = f.items[1]
+                        derived = any(L.head(x) == "rf" for x in L.walk(arg))
+                        if isinstance(arg, L.Sym):
+                            for a in L.ancestors(f):
+                                if a is inner:
+                                    break
+                                if L.head(a) in ("let", "let*") and isinstance(a.items[1], L.Vec):
+                                    for k, v in zip(a.items[1].items[0::2], a.items[1].items[1::2]):
+                                        if L.is_sym(k, arg.val) and any(L.head(x) == "rf" for x in L.walk(v)):
+                                            derived = True
+                        if not derived and isinstance(arg, L.Sym) and arg.val in sparams:
+                            late.append(f)
+            ctx.ob("C07.R1", f"{CORE}::take::terminates together with its last element", CORE, step[0].line, not late,
+                   "" if not late else f"`{late[0].text()}` reduces the untouched accumulator: termination is only signalled when input n+1 arrives, so one element too many is pulled from the source",
+                   witness="(into [] (take 2) src) over a lazy src whose third element throws")
 
 
 def _buffer_state_before(call, stop):
@@ -375,6 +399,48 @@ def r6_transducing_loop_does_not_look_ahead(ctx):
         raise AnalysisError("transduce no longer has a recur that calls xf")
 
 
+@rule("C07.R7", floor=3)
+def r7_lazy_application_forms_scale_and_do_not_look_ahead(ctx):
+    """`sequence` builds its result lazily, step by step.  A step must attach what it produced to
+    the lazy remainder with cons: (concat chunk (the-recursive-call)) wraps one more iterator
+    around the remainder for every step, so reaching element k needs k nested iterators and the
+    interpreter's recursion limit is hit after about a thousand elements.  The eduction iterator
+    takes (first s) / (rest s) of its input: destructuring [f & r] (nthnext) or (next s) realizes
+    the element after the one being processed."""
+    defs = _defs(ctx)
+    sq = defs.get("sequence")
+    if sq is None:
+        raise AnalysisError("anchor vanished: core.lpy::sequence")
+    n = 0
+    for params, body in L.fn_arities(sq):
+        if len(params.items) < 2:
+            continue
+        for fnf in (f for b in body for f in L.walk(b) if L.head(f) in ("fn", "fn*") and len(f.items) > 1 and isinstance(f.items[1], L.Sym)):
+            self_name = fnf.items[1].val
+            n += 1
+            bad = [c for c in L.walk(fnf) if L.head(c) in ("concat", "lazy-cat") and any(L.head(x) == self_name or (L.head(x) == "apply" and len(x.items) > 1 and L.is_sym(x.items[1], self_name)) for a in c.items[1:] for x in L.walk(a))]
+            ctx.ob("C07.R7", f"{CORE}::sequence {params.text()[:30]}::{self_name} attaches its output with cons, not concat", CORE, fnf.line, not bad,
+                   "" if not bad else f"`{bad[0].text()[:70]}` nests one iterator per step: walking ~1000 elements raises RecursionError",
+                   witness="(count (sequence (map inc) (vec (range 3000))))")
+    if n == 0:
+        raise AnalysisError("sequence lost its named step functions")
+    es = next((t for t in ctx.lisp(CORE) if L.head(t) == "deftype" and len(t.items) > 1 and L.is_sym(t.items[1], "EductionSeq")), None)
+    if es is None:
+        raise AnalysisError("anchor vanished: core.lpy::EductionSeq")
+    nxt = next((m for m in es.items if L.head(m) == "__next__"), None)
+    if nxt is None:
+        raise AnalysisError("anchor vanished: EductionSeq.__next__")
+    ahead = [f for f in L.walk(nxt) if L.head(f) in ("next", "nnext", "nthnext")]
+    for f in L.walk(nxt):
+        if L.head(f) in ("let", "let*", "loop") and isinstance(f.items[1], L.Vec):
+            for k in f.items[1].items[0::2]:
+                if isinstance(k, L.Vec) and any(L.is_sym(x, "&") for x in k.items):
+                    ahead.append(k)
+    ctx.ob("C07.R7", f"{CORE}::EductionSeq.__next__::takes first / rest of its input", CORE, nxt.line, not ahead,
+           "" if not ahead else f"`{ahead[0].text()[:40]}` realizes the element after the current one before xf has seen the current one",
+           witness="(first (eduction (map inc) src)) over a source with one available element")
+
+
 REDUCERS = ("src/basilisp/lang/runtime.py", "src/basilisp/lang/vector.py", "src/basilisp/lang/map.py", "src/basilisp/lang/set.py", "src/basilisp/lang/list.py", "src/basilisp/lang/seq.py", "src/basilisp/lang/queue.py")
 
 
@@ -437,19 +503,32 @@ SELFTEST = [
     {"name": "cat reduces with the raw rf (the repaired defect)", "file": CORE, "expect": "C07.R1",
      "old": "       (reduce preserving-reduced result input)))))", "new": "       (reduce rf result input)))))"},
     {"name": "seeded C07/a: take terminates on equality", "file": CORE, "expect": "C07.R1",
-     "old": "          (if (pos? (vswap! idx dec))\n            (rf result input)\n            (ensure-reduced result)))))))",
-     "new": "          (let [more (vswap! idx dec)\n                result (if (neg? more) result (rf result input))]\n            (if (zero? more)\n              (ensure-reduced result)\n              result)))))))"},
+     "old": "            (if (pos? nn)\n              result\n              (ensure-reduced result))))))))",
+     "new": "            (if (zero? nn)\n              (ensure-reduced result)\n              result)))))))"},
+    {"name": "take terminates one input late (the repaired defect)", "file": CORE, "expect": "C07.R1",
+     "old": "          (let [n      @remaining\n                nn     (vswap! remaining dec)\n                result (if (pos? n)\n                         (rf result input)\n                         result)]\n            (if (pos? nn)\n              result\n              (ensure-reduced result))))))))",
+     "new": "          (if (pos? (vswap! remaining dec))\n            (rf result input)\n            (ensure-reduced result)))))))",
+     "edits": [
+         {"file": CORE, "old": "     (let [remaining (volatile! n)]\n       (fn\n         ([] (rf))\n         ([result] (rf result))\n         ([result input]\n          ;; Signal termination", "new": "     (let [remaining (volatile! (inc n))]\n       (fn\n         ([] (rf))\n         ([result] (rf result))\n         ([result input]\n          ;; Signal termination"},
+         {"file": CORE, "old": "          (let [n      @remaining\n                nn     (vswap! remaining dec)\n                result (if (pos? n)\n                         (rf result input)\n                         result)]\n            (if (pos? nn)\n              result\n              (ensure-reduced result))))))))",
+          "new": "          (if (pos? (vswap! remaining dec))\n            (rf result input)\n            (ensure-reduced result)))))))"},
+     ]},
+    {"name": "sequence concatenates onto its own recursion (the repaired defect)", "file": CORE, "expect": "C07.R7", "first": True,
+     "old": "                                   (seq elem)      (reduce* #(cons %2 %1)\n                                                            (create-sequence (rest coll))\n                                                            (reverse elem))",
+     "new": "                                   (seq elem)      (concat elem (create-sequence (rest coll)))"},
+    {"name": "eduction destructures its input with & (the repaired defect)", "file": CORE, "expect": "C07.R7",
+     "old": "        (let [f (first s)\n              r (rest s)\n              v (xf nil f)]", "new": "        (let [[f & r] s\n              v       (xf nil f)]"},
     {"name": "transduce completes only on exhaustion", "file": CORE, "expect": "C07.R2",
      "old": "           (reduced? result) (xf @result)\n", "new": "           (reduced? result) @result\n"},
     {"name": "sequence completes in every step (the repaired defect)", "file": CORE, "expect": "C07.R2", "first": True,
-     "old": "                                   (seq elem)      (concat elem (create-sequence (rest coll)))", "new": "                                   (seq elem)      (concat (xf elem) (create-sequence (rest coll)))"},
+     "old": "                                                            (create-sequence (rest coll))\n                                                            (reverse elem))", "new": "                                                            (create-sequence (rest coll))\n                                                            (reverse (xf elem)))"},
     {"name": "eduction never completes on exhaustion (the repaired defect)", "file": CORE, "expect": "C07.R2",
      "old": "          (set! coll nil)\n          (when-not completed\n            (set! completed true)\n            (xf nil))\n", "new": "          (set! coll nil)\n"},
     {"name": "filter tests the element", "file": CORE, "expect": "C07.R3",
      "old": "    (when-let [coll (seq coll)]\n      (if (pred (first coll))\n        (cons (first coll) (filter pred (rest coll)))\n        (filter pred (rest coll)))))))",
      "new": "    (when-let [e (first coll)]\n      (if (pred e)\n        (cons e (filter pred (rest coll)))\n        (filter pred (rest coll)))))))"},
     {"name": "iterate stops on falsey (the repaired defect)", "file": CORE, "expect": "C07.R3",
-     "old": "  (lazy-seq\n   (cons x (iterate f (f x)))))", "new": "  (lazy-seq\n   (when x\n     (cons x (iterate f (f x))))))"},
+     "old": "   (cons x (lazy-seq (iterate f (f x))))))", "new": "   (when x\n     (cons x (lazy-seq (iterate f (f x)))))))"},
     {"name": "dedupe transducer starts from nil", "file": CORE, "expect": "C07.R4",
      "old": "(volatile! :basilisp.core.dedupe/default)", "new": "(volatile! nil)"},
     # twins
